@@ -983,8 +983,17 @@ func (k *checker) e2e(cs Case, a *ap.AP, settings []Filt) {
 
 	for _, f := range settings {
 		cs.Filter = f
-		k.evalProto(cs, a, data, false)
-		k.evalProto(cs, a, data, true)
+		plain := k.evalProto(cs, a, data, false)
+		rel := k.evalProto(cs, a, data, true)
+		// relative_percentages changes what percentages refer to, never which samples, frames and
+		// labels are kept: the saved profile is the same with and without it, whatever order the
+		// documentation leaves open for the options themselves
+		if plain != nil && rel != nil {
+			if cl, d := diff(plain, &Exp{Stacks: plain.Stacks, Optional: make([]bool, len(plain.Stacks))}, rel); cl != "" {
+				cs.Via = "proto,relative_percentages"
+				c.Violationf("e2e/relative_percentages-changes-selection/"+cl, cs, "the saved profile differs from the one saved without relative_percentages: %s\nwithout %s\nwith    %s", d, renderAP(plain), renderAP(rel))
+			}
+		}
 		if !tracesOK {
 			continue
 		}
